@@ -26,6 +26,10 @@ def run(tier, seed):
         {"prog": "page-huge", "strategy": "pct", "runs": (40, 600), "args": ["--snap", "3"], "env": {"MIMALLOC_TARGET_SEGMENTS_PER_THREAD": "2"}},
         {"prog": "page", "strategy": "random", "runs": (40, 600), "args": ["--snap", "3", "--size", "600000", "1048576", "--spurious", "1"], "env": {"MIMALLOC_TARGET_SEGMENTS_PER_THREAD": "2"}},
         {"prog": "exit", "strategy": "random", "runs": (60, 800), "args": ["--size", "600000", "1048576", "--rate", "3"], "env": {"MIMALLOC_TARGET_SEGMENTS_PER_THREAD": "2"}},
+        # (blocks of 9-12 MiB: every page is full, every second allocation needs a segment and abandons others by force; release build only: debug builds
+        #  abort here on the unchanged tree, known finding of C13)
+        {"prog": "exit", "strategy": "random", "runs": (60, 800), "args": ["--size", "9000000", "12000000", "--rate", "3"], "env": {"MIMALLOC_TARGET_SEGMENTS_PER_THREAD": "2"}, "builds": ["rel"], "tag": "tsptbig"},
+        {"prog": "exit", "strategy": "pct", "runs": (40, 600), "args": ["--size", "9000000", "12000000"], "env": {"MIMALLOC_TARGET_SEGMENTS_PER_THREAD": "2"}, "builds": ["rel"], "tag": "tsptbig"},
         {"prog": "page-aligned", "strategy": "random", "runs": (120, 1500), "args": ["--snap", "3", "--spurious", "1", "--rate", "3"]},
         {"prog": "page-aligned", "strategy": "pct", "runs": (80, 1000), "args": ["--snap", "3"]},
         {"prog": "page-delete", "strategy": "random", "runs": (100, 1500), "args": ["--snap", "3", "--spurious", "1", "--rate", "3"]},
